@@ -383,6 +383,8 @@ class ObjectCodeGenerator:
             reached_dummy = reached_dummy or case_context.reached_dummy
             start = False
 
+        switch_code_generator.generate_unmatched_guard(protocol_cases)
+
         self._context.reached_optional_field = reached_optional_field
         self._context.reached_dummy = reached_dummy
 
